@@ -16,7 +16,7 @@ PI = math.pi
 K = 64.0
 
 KEY_ANTI = "C20-from-to-antiparallel"        # exactly antiparallel from_to: axis not normalised
-KEY_NEWAXES = "C20-to-new-axes-nonunit"      # to_new_axes: (newx . newz) taken before newz is normalised
+KEY_NEWAXES = "C20-to-new-axes"      # to_new_axes: (newx . newz) taken before newz is normalised
 
 RULE = ("units_G (exhaustive): all 7 x 15 x 17 = 1785 (length, time, mass) triples, argument order and letter case "
         "cycling with the index; sim.G and the period of a fixed physical two-body system against an SI table written "
@@ -499,7 +499,7 @@ def check_rotation(q, M, fac, info, ct, ctx):
         return False
     if info.get("new_axes") and info.get("newx") is not None:
         nz, nx = info["newz"], info["newx"]
-        nonunit_nonorth = abs(dot(nz, nz) - 1) > 1e-12 and abs(dot(nz, nx)) > 1e-12 * vnorm(nz) * vnorm(nx)
+        nonunit_nonorth = abs(dot(nz, nz) - 1) > 4 * EPS and abs(dot(nz, nx)) > 1e-12 * vnorm(nz) * vnorm(nx)
         if ctx.finding_open(KEY_NEWAXES):
             # second signature: the x axis, carried along by the minimal rotation newz -> z, ends up within 1e-3 of -x
             zl = vnorm(nz)
